@@ -21,7 +21,7 @@
 (***************************************************************************)
 EXTENDS Integers, Sequences, FiniteSets, TLC, SequencesExt, Json
 
-CONSTANTS Entries,      \* leaf entry alphabet: set of [k, n, to]  (k \in {"file","link"}; n: name as segment sequence)
+CONSTANTS Entries,      \* leaf entry alphabet: set of [k, n, to]  (k \in {"file","link","missing"}; n: name as segment sequence)
           DirNames,     \* names usable for directory entries
           MaxTop,       \* entries at the top level
           MaxChild,     \* entries inside a directory entry
@@ -137,6 +137,9 @@ Step ==
             ELSE /\ fs' = r.fs
                  /\ todo' = [i \in 1..Len(e.ch) |-> [d |-> Clean(<<>>, rel), e |-> e.ch[i]]] \o Tail(todo)
                  /\ UNCHANGED aborted
+     ELSE IF e.k = "missing"
+       \* the entry's block is not in the archive: reported and skipped, after its path was resolved
+       THEN todo' = Tail(todo) /\ UNCHANGED <<fs, aborted>>
      ELSE LET r == IF e.k \in {"file", "froot"} THEN Create(fs, target, Content(e)) ELSE Symlink(fs, target, e.to) IN
           IF ~r.ok THEN aborted' = TRUE /\ UNCHANGED <<fs, todo>>
           ELSE fs' = r.fs /\ todo' = Tail(todo) /\ UNCHANGED aborted
